@@ -424,12 +424,23 @@ fn maybe_wide(seed: u64, sc: &mut Scenario, one_in: usize) -> bool {
 
 /// On a fraction of the seeds: a dependency chain of several hundred to a few thousand packages.
 fn maybe_chain(seed: u64, sc: &mut Scenario, one_in: usize) -> bool {
+    maybe_chain_kind(seed, sc, one_in, false)
+}
+
+fn maybe_chain_kind(seed: u64, sc: &mut Scenario, one_in: usize, cheap: bool) -> bool {
     let mut r = Rng::stream(seed, "chain");
     if !r.chance(1, one_in) {
         return false;
     }
-    let len = r.range(300, 3000);
-    let (w, p) = crate::gen::gen_chain(&mut r, len);
+    // counters and per-batch limits in code are usually powers of two: half of the chains have a length within three of one
+    let len = if r.chance(1, 2) {
+        let base = 1usize << r.range(8, 11);
+        base + r.below(7) - 3
+    } else {
+        r.range(300, 3000)
+    };
+    let len = if cheap { len.min(1400) } else { len };
+    let (w, p) = crate::gen::gen_chain_kind(&mut r, len, cheap);
     sc.world = w;
     for s in sc.solves.iter_mut() {
         s.problem = p.clone();
@@ -603,6 +614,19 @@ impl Property for C02 {
         maybe_forest(seed, &mut sc, &params, 40, tier);
         maybe_warm_or_deep(seed, &mut sc, &params);
         sc.capture_state = true;
+        {
+            // long series of conflicts in one solve (counters, stamps and periodic actions keyed on the number of
+            // conflicts): forests of 900..1300 conflict gadgets, several hundred learnt clauses per solve (a solve takes seconds: every lazily discovered conflict restarts the search), on one seed in 80000
+            let mut gr = Rng::stream(seed, "many-conflicts");
+            if gr.chance(1, 80_000) {
+                let k = gr.range(900, 1300);
+                let (w, p) = crate::gen::gen_forest(&mut gr, &params, k, true, true);
+                sc.world = w;
+                sc.solves.truncate(1);
+                sc.solves[0].problem = p;
+                sc.poll_budget = 30_000 + 3_000 * k as u64;
+            }
+        }
         vec![sc]
     }
     fn judge(&self, sc: &Scenario) -> Verdict {
@@ -627,6 +651,9 @@ impl Property for C02 {
                 *v.probes.entry("learnt_clauses_certified").or_insert(0) += n_learnt as u64;
                 if n_learnt >= 64 {
                     *v.probes.entry("solves_with_64_or_more_learnt_clauses").or_insert(0) += 1;
+                }
+                if n_learnt >= 256 {
+                    *v.probes.entry("solves_with_256_or_more_learnt_clauses").or_insert(0) += 1;
                 }
                 if let Some(e) = crate::internal::clause_truth(&sc.world, &p, d) {
                     v.evaluated = true;
@@ -1320,7 +1347,10 @@ impl Property for C07 {
         base.p_big_package = 1;
         let params = swarm(seed, base, tier);
         if seed % 4 != 0 {
-            return vec![std_scenario(seed, &params, None)];
+            let mut sc = std_scenario(seed, &params, None);
+            // conflict-free by construction and large: chains of several hundred to a few thousand packages
+            maybe_chain(seed, &mut sc, 2500);
+            return vec![sc];
         }
         // the preference guarantee is not limited to fresh solvers: histories of 2-3 problems on one solver
         // (earlier solves may have hit exclusions, Unknown dependencies or missing packages)
@@ -1427,6 +1457,11 @@ impl Property for C08 {
             base.p_locked = 0;
             base.vs_weights = [1, 6, 5, 3];
         }
+        if seed % 7 == 0 {
+            // soft requirements come after the hard problem: they may not displace the best candidate of a direct
+            // requirement either
+            base.max_soft = 2;
+        }
         if seed % 5 == 0 {
             // packages with 21..60 candidates, some of them excluded (library sorts and partitions change
             // algorithm with the length of the slice)
@@ -1447,7 +1482,9 @@ impl Property for C08 {
     fn judge(&self, sc: &Scenario) -> Verdict {
         let p = hard_only(&sc.solves[0].problem);
         let mut f = Vec::new();
-        let mut pre = sc.solves[0].problem.soft.is_empty();
+        // soft requirements are solved after the hard problem and cannot displace what it installed, so the guarantee
+        // does not depend on their absence
+        let mut pre = true;
         for r in &p.requirements {
             match r {
                 Req::Single(vs) => match sc.world.sorted(*vs).first() {
@@ -2012,6 +2049,9 @@ impl Property for C12 {
             // the interesting cancellation points of a wide world need requests in flight
             let mut cr = Rng::stream(seed, "wide-config");
             gen_config(&mut cr, &mut sc, Some(true));
+        } else {
+            // long propagation rounds and encoding passes with more than a thousand results
+            maybe_chain_kind(seed, &mut sc, 200, true);
         }
         // explicit trace-free policies only (the schedule must not depend on the fault)
         sc.spurious_p = 0;
